@@ -241,23 +241,35 @@ func (c *cache) tryRemoveNode(ptr, lockedPtr *node.Pointer) error {
 
 	switch n := ptr.Node.(type) {
 	case *node.InternalNode:
-		// Remove leaf node and subtrees first.
+		// Remove leaf node and subtrees first. They are detached from the node only after all of
+		// them have been removed: if one of the removals fails, the node stays in the cache and
+		// must keep referencing the (possibly evicted) leaf node and subtrees.
+		var removedLeaf, removedLeft, removedRight bool
 		if n.LeafNode != nil && n.LeafNode.Node != nil {
 			if err := c.tryRemoveNode(n.LeafNode, lockedPtr); err != nil {
 				return err
 			}
-			n.LeafNode = nil
+			removedLeaf = true
 		}
 		if n.Left != nil && n.Left.Node != nil {
 			if err := c.tryRemoveNode(n.Left, lockedPtr); err != nil {
 				return err
 			}
-			n.Left = nil
+			removedLeft = true
 		}
 		if n.Right != nil && n.Right.Node != nil {
 			if err := c.tryRemoveNode(n.Right, lockedPtr); err != nil {
 				return err
 			}
+			removedRight = true
+		}
+		if removedLeaf {
+			n.LeafNode = nil
+		}
+		if removedLeft {
+			n.Left = nil
+		}
+		if removedRight {
 			n.Right = nil
 		}
 
